@@ -139,6 +139,12 @@ fn rec_dirs(src: &mut Src, export: bool) -> Vec<Directive> {
     if src.chance(30) {
         d.push(Directive::Memoize);
     }
+    if src.chance(44) {
+        // a check on the growing rule: it is part of every evaluation of the body, so it can stop the growth
+        // (value-dependent ones: accept the short match, reject a longer one, or the other way round)
+        let c = *src.choose(&["chk_short", "chk_hash", "chk_even", "chk_no_b", "chk_short", "chk_true"]);
+        d.push(Directive::Check(vec!["verif_core".into(), "hooks".into(), c.into()]));
+    }
     if src.chance(128) {
         let k = src.pick(d.len());
         d.rotate_left(k);
@@ -204,7 +210,7 @@ pub fn leftrec_grammar(src: &mut Src) -> (Grammar, SpecFlags) {
                 arms.push(base);
             }
             let d = rec_dirs(src, true);
-            let plain = !d.contains(&Directive::Position) && shape == 0 && seed_kind == 0;
+            let plain = !d.contains(&Directive::Position) && shape == 0 && seed_kind == 0 && !d.iter().any(|x| matches!(x, Directive::Check(_)));
             rules.push(RuleDef::Normal(NormalRule { name: "E".into(), directives: d, body: Expr::Choice(arms) }));
             let atom = RuleDef::Normal(NormalRule {
                 name: "Atom".into(),
@@ -457,9 +463,17 @@ pub fn make(plan: &str, seed: u64, count: usize, tier: &str, wave: u64) -> (Vec<
             }, tier, wave)
             .unwrap();
             let nl = if plan == "errors" { count / 4 } else { count / 5 };
+            // the schedule plan (C20) also gets grammars over the whole Unicode range (hidden state keyed by bytes)
+            let nu = if plan == "sched" { count / 6 } else { 0 };
+            if nu > 0 {
+                let pu = prof_for("unicode", tier, wave).unwrap();
+                for (k, (g, _)) in profile_grammars(&pu, seed ^ 0x55, nu, wave, &mut stats).into_iter().enumerate() {
+                    specs.push(spec(format!("u{:04}", k), plan, g));
+                }
+            }
             // the error plan also needs field-rich grammars (multi-field optionals / closures have their own templates)
             let nf = if plan == "errors" { count / 4 } else { 0 };
-            for (k, (g, _)) in profile_grammars(&prof, seed, count - nl - nf, wave, &mut stats).into_iter().enumerate() {
+            for (k, (g, _)) in profile_grammars(&prof, seed, count - nl - nf - nu, wave, &mut stats).into_iter().enumerate() {
                 specs.push(spec(format!("g{:04}", k), plan, g));
             }
             if nf > 0 {
@@ -582,6 +596,16 @@ pub fn make(plan: &str, seed: u64, count: usize, tier: &str, wave: u64) -> (Vec<
                 s.role = if ctx { "user_ctx".into() } else { "no_ctx".into() };
                 specs.push(s);
             }
+            // checks on left-recursive rules: the check is part of every evaluation of the growing body
+            for (k, mut s) in leftrec_specs(seed, count / 8, wave, "l", &mut stats).into_iter().enumerate() {
+                let ctx = k % 2 == 1;
+                if ctx {
+                    s.model = to_ctx(&s.model);
+                }
+                s.cfg.user_ctx = ctx;
+                s.role = if ctx { "user_ctx".into() } else { "no_ctx".into() };
+                specs.push(s);
+            }
             prof.user_ctx = false;
         }
         "types" => {
@@ -617,8 +641,17 @@ pub fn make(plan: &str, seed: u64, count: usize, tier: &str, wave: u64) -> (Vec<
         }
         _ => {
             let prof = prof_for(plan, tier, wave).unwrap_or_else(|| panic!("unknown plan {plan}"));
-            for (k, (g, _idx)) in profile_grammars(&prof, seed, count, wave, &mut stats).into_iter().enumerate() {
+            // the core plan (C01) takes a fifth of its grammars from the unicode profile: terminals over the whole Unicode
+            // range are part of "the characters the syntax reference says"
+            let nu = if plan == "core" { count / 5 } else { 0 };
+            for (k, (g, _idx)) in profile_grammars(&prof, seed, count - nu, wave, &mut stats).into_iter().enumerate() {
                 specs.push(spec(format!("g{:04}", k), plan, g));
+            }
+            if nu > 0 {
+                let pu = prof_for("unicode", tier, wave).unwrap();
+                for (k, (g, _)) in profile_grammars(&pu, seed ^ 0x55, nu, wave, &mut stats).into_iter().enumerate() {
+                    specs.push(spec(format!("u{:04}", k), plan, g));
+                }
             }
         }
     }
